@@ -132,7 +132,32 @@ class Context:
                 "*": operator.mul,
                 "%": operator.mod,
             }
+            int_ops = {
+                "<<": operator.lshift,
+                ">>": operator.rshift,
+                "&": operator.and_,
+                "|": operator.or_,
+                "^": operator.xor,
+            }
+            if expr.op in int_ops:
+                if not (isinstance(a, int) and isinstance(b, int)):
+                    raise SemanticError(
+                        f"Operator {expr.op} needs integer constants", expr.loc
+                    )
+                if expr.op in ("<<", ">>") and b < 0:
+                    raise SemanticError(
+                        "Negative shift count in constant expression",
+                        expr.loc,
+                    )
+                return int_ops[expr.op](a, b)
+            if expr.op not in ops:
+                raise SemanticError(
+                    f"Cannot evaluate constant operator {expr.op}", expr.loc
+                )
             return ops[expr.op](a, b)
+        elif isinstance(expr, ast.Unop) and expr.op in ("+", "-"):
+            a = self.eval_const(expr.a)
+            return -a if expr.op == "-" else a
         elif isinstance(expr, ast.TypeCast):
             a = self.eval_const(expr.a)
             to_type = self.get_type(expr.to_type)
